@@ -1,9 +1,92 @@
 import UvModel.DriverUtil
-/-! line-protocol driver modes for C19 (stub: no modes yet) -/
+import UvModel.Getter
+import UvModel.Generated.ErrnoTable
+/-! line-protocol driver for C19; other side: harness/c19_getters.c.
+`sentinel <n>` sets the byte the buffer is pre-filled with.
+`getter <name> <size> <args>` → `ret <rc> size <reported> buf <hex of buffer[0..size)>`, followed by
+` retry ret .. size .. buf ..` when the first call answered UV_ENOBUFS (second call with the reported size).
+Values are hex strings (`-` = empty, `!` = absent). -/
 namespace Drivers.C19
-open UvModel.DriverUtil
+open UvModel.DriverUtil UvModel.Getter UvModel.Generated
 
-/-- (mode name, action).  `uvdriver <mode>` runs the action (normally `runLines init step`). -/
-def modes : List (String × IO Unit) := []
+def hexDigit (c : Char) : Option Nat :=
+  if '0' ≤ c ∧ c ≤ '9' then some (c.toNat - 48)
+  else if 'a' ≤ c ∧ c ≤ 'f' then some (c.toNat - 87) else none
+
+def unhexAux : List Char → List Byte → Option (List Byte)
+  | [], acc => some acc.reverse
+  | a :: b :: rest, acc =>
+    match hexDigit a, hexDigit b with
+    | some x, some y => unhexAux rest ((x * 16 + y).toUInt8 :: acc)
+    | _, _ => none
+  | _, _ => none
+
+def unhex (s : String) : Option (List Byte) := if s = "-" then some [] else unhexAux s.toList []
+
+def hexChars : Array Char := "0123456789abcdef".toList.toArray
+def hexOf (a : Array Byte) : String :=
+  if a.size = 0 then "-" else
+  String.ofList (a.foldr (fun b acc => hexChars[b.toNat / 16]! :: hexChars[b.toNat % 16]! :: acc) [])
+
+/-- the buffer after the call: stores applied in program order to `size` sentinel bytes -/
+def render (sent : Byte) (size : Nat) (ws : Writes) : String :=
+  let (a, over) := ws.foldl (fun (st : Array Byte × Bool) p =>
+    if p.1 < size then (st.1.set! p.1 p.2, st.2) else (st.1, true)) (Array.replicate size sent, false)
+  if over then "MODEL-OVERRUN" else hexOf a
+
+def show1 (sent : Byte) (size : Nat) (r : Result) : String :=
+  s!"ret {r.rc} size {r.size} buf {render sent size r.writes}"
+
+/-- `hasSize`: the API has an in/out `*size`, so an ENOBUFS answer is retried with the reported size -/
+def showRun (sent : Byte) (hasSize : Bool) (run : Nat → Result) (size : Nat) : String :=
+  let r := run size
+  if hasSize && r.rc == ENOBUFS then show1 sent size r ++ " retry " ++ show1 sent r.size (run r.size)
+  else show1 sent size r
+
+def optVal (s : String) : Option (Option (List Byte)) := if s = "!" then some none else (unhex s).map some
+
+def getterStep (sent : Byte) : List String → Byte × List String
+  | ["sentinel", n] => ((nat! n).toUInt8, [])
+  | ["getter", name, sz, a] =>
+    let size := nat! sz
+    let one (hasSize : Bool) (f : List Byte → Nat → Result) : List String :=
+      match unhex a with
+      | some v => [showRun sent hasSize (f v) size]
+      | none => ["bad-op"]
+    (sent, match name with
+      | "cwd" => one true cwd
+      | "getenv" => (match optVal a with
+          | some v => [showRun sent true (osGetenv v) size]
+          | none => ["bad-op"])
+      | "tmpdir" => one true osTmpdir
+      | "hostname" => one true osGethostname
+      | "exepath" => one false exepath
+      | "proctitle" => one false getProcessTitle
+      | "sockname" => one true (fun v => pipeGetname v sent)
+      | "peername" => one true (fun v => pipeGetname v sent)
+      | "fsevent" => one true fsEventGetpath
+      | "fspoll" => one true fsPollGetpath
+      | "ifname" => one true ifIndexToName
+      | "ifiid" => one true ifIndexToName
+      | "threadname" => one false threadGetname
+      | "errname" => (match a.toInt? with
+          | some c => [showRun sent false (errNameR errnoTable c) size]
+          | none => ["bad-op"])
+      | "strerror" => (match a.toInt? with
+          | some c => [showRun sent false (strerrorR errnoTable c) size]
+          | none => ["bad-op"])
+      | _ => ["bad-op"])
+  | ["getter", "homedir", sz, h, pw] =>
+    (sent, match optVal h, unhex pw with
+      | some hv, some p => [showRun sent true (osHomedir hv p) (nat! sz)]
+      | _, _ => ["bad-op"])
+  | ["truth", "errname", c] =>
+    (sent, match c.toInt? with | some c => [hexOf (trueErrName errnoTable c).toArray] | none => ["bad-op"])
+  | ["truth", "strerror", c] =>
+    (sent, match c.toInt? with | some c => [hexOf (trueStrerror errnoTable c).toArray] | none => ["bad-op"])
+  | [] => (sent, [])
+  | _ => (sent, ["bad-op"])
+
+def modes : List (String × IO Unit) := [("getter", runLines (0xAA : Byte) getterStep)]
 
 end Drivers.C19
